@@ -67,6 +67,15 @@ Theorem C01_submodel_slice :
       print_span store a z = py_slice text (off store a) (off store (z + 1)).
 Proof. exact submodel_slice. Qed.
 
+(* first_token <= last_token, both in the store, for the returned model and every model nested in it
+   (spans as Repeated / the generated classes compute them: first resp. last present part). *)
+Theorem C01_spans_ordered :
+  forall env T st b,
+    build env T = (st, Ok b) ->
+    forall c a z, subnode c b -> bfirst c = Some a -> blast c = Some z ->
+      0 <= a /\ a <= z /\ z < zlen (built st).
+Proof. exact spans_ordered. Qed.
+
 (* Full statement for the other targets (REFUTED on this tree, finding D12):
      forall ... (same hypotheses), root_span false store b = Some (a, z) -> print_span store a z = text.
    Witness: parse(' 1 + 2 ', NumberExpr): the store holds all 7 lexemes, the model spans 1..5. *)
@@ -108,6 +117,15 @@ Qed.
 Example C01_postlex_instance : txt ex_out = txt ex_in /\ forallb nic_ok ex_in = true.
 Proof.
   split; [apply C01_postlex_preserves_text; vm_compute; reflexivity | vm_compute; reflexivity].
+Qed.
+
+Example C01_spans_instance :
+  exists st b, build (mkenv ex_out d12_ign ex_tm) ex_tree = (st, Ok b) /\
+               exists c, subnode c b /\ c <> b /\ bfirst c = Some 1 /\ blast c = Some 2.
+Proof.
+  eexists. eexists. split; [vm_compute; reflexivity|].
+  exists (BModel [BNone; BTok 1; BTok 2; BNone]). split; [|split; [discriminate | split; reflexivity]].
+  eapply sub_model; [left; reflexivity|]. eapply sub_rep; [left; reflexivity | apply sub_refl].
 Qed.
 
 Example C01_submodel_instance : print_span ex_built 1 2 = [42; 32; 120].   (* the ignored line "* x" *)
